@@ -9,6 +9,12 @@ TRUST = ("Trusted base: the harness itself (simulated clock, transport, peers, c
 
 # id -> (category, text, design_ref, technique, extra note)
 CHECKS = {
+ "C09": ("exploration", "Seeded random walks over every public method of every flow state (accessors, mutators, I/O with drawn slices, readiness query, advance - also premature and repeated after a decision) interleaved with the arrival of a scripted server stream; oracle: no panic, readiness query iff a ground-truth model says the stage is complete, proceed() yields a state iff ready, successor equals the documented graph on ground truth, and the flow returned by as_new_flow is really used. All 64 (state, call kind) pairs and all 13 graph edges are hit in every quick run.", "6/C09", "deterministic simulation: seeded random walk over call histories against a ground-truth state-graph model", ""),
+ "C12": ("fault_enumeration", "Fault injection on the server byte stream: grammar-aware mutation sequences of valid exchanges under drawn schedules, an enumeration of every string up to length 3 (quick) / 4 (thorough) over a 23-symbol protocol alphabet offered to every server-facing call, and oversize items; a panic anywhere in a library call, a count beyond what was offered, output that is not an in-order copy of consumed input, or an exchange that does not come to rest within its step budget is a violation; state-advancing calls are made afterwards on whatever state is left.", "6/C12", "deterministic simulation with fault injection: enumerated alphabet strings + seeded mutation sequences on the s2c stream, panic / bound / hang oracles", ""),
+ "C13": ("exploration", "Redirect chains of 1..4 hops played as histories in a world of simulated origins (3 hosts x 2 schemes x ports): the head of every hop is read at the receiving origin by a strict reference parser and checked for the original request's unique Cookie / Content-Length / Authorization secrets against the stated only-if condition, under both policies, all methods and statuses, with chains that leave and return, downgrade and upgrade.", "6/C13", "deterministic simulation: seeded multi-origin redirect histories, secrets observed at the receiving simulated origin", ""),
+ "C14": ("exploration", "Same world with the rich Location grammar: the new flow's URI is compared with an independent RFC 3986 section 5.2 resolver applied to the last Location and the current hop's URI, the request line and derived Host are checked at the receiving origin, chains reach hop 4; must-error Locations must give an error, garbage must not panic nor lead to an origin that is neither current nor named.", "6/C14", "deterministic simulation: seeded redirect histories against an independent RFC 3986 resolver, observed at the receiving origin", ""),
+ "C15": ("exploration", "Schedule-free: the result is a function of (method, status, policy). All 3600 first-hop cells are enumerated on every run through the real exchange and as_new_flow; a second hop makes hop k's method feed hop k+1; non-3xx statuses check the 'exactly' direction.", "6/C15", "exhaustive enumeration of the 3600 (method, status, policy, body) cells through the simulated exchange against the documented table (schedule-free)", ""),
+ "C16": ("exploration", "Same world: at every Prepare (depth 0..3) a simulated cookie jar adds 0..60 hop-tagged headers incl. cookie / authorization / connection / host / framing names (trimmed to what C17 accepts); at the receiving origin every added header must be on the wire, in order, ahead of every original header.", "6/C16", "deterministic simulation: seeded redirect histories with a simulated cookie jar, headers observed at the receiving origin", ""),
  "C01": ("exploration", "Deterministic simulation of whole exchanges in a discrete-event world (simulated clock, in-order segment transport with drawn latencies, client think times, spurious wake-ups): 1..3 back-to-back exchanges on one fixed server byte stream under drawn arrival / output / piece / read-buffer schedules with queries interleaved. Oracles: (a) reference models for head, request payload, response head, response body, terminal state, verdict; (b) metamorphic equality with the canonical-schedule twin of the real code; (c) conservation: consumed == message length and the next exchange starts exactly there on the same stream; (d) bounded liveness once the schedule is fair; plus a peer-close sub-batch in which the exchange must not complete.", "6/C01", "deterministic simulation: seeded discrete-event schedules (arrival x buffer x think time x re-polls) with reference, metamorphic (canonical twin), conservation and bounded-liveness oracles", ""),
  "C06": ("exploration", "Schedule-free: the framing decision is a function of (method, status, version, Content-Length, Transfer-Encoding). All 4860 coarse cells are visited round-robin on every run (values inside a cell sampled by seed) through the real exchange path and compared with an independent RFC 9112 section 6.3 reference: error on non-numeric length, successor state, body_mode, delivered bytes, exact consumption; cells the statement does not decide are DontCare.", "6/C06", "seeded stratified configuration search (round-robin over 4860 cells) through the simulated exchange against an independent framing reference (schedule-free)", ""),
  "C10": ("exploration", "Simulated exchanges over the product of close-relevant features, with the Expect handshake outcome produced by the simulated timer racing drawn arrival latencies; the verdict at Redirect and Cleanup is compared with the set of close conditions that are true in the run (both directions coded separately), the reason is mapped to a true condition, the all-five cell is forced regularly, and a connection reported reusable is really reused for a next exchange on the same stream.", "6/C10", "deterministic simulation: seeded histories (timer race, handshake outcome) x configurations, verdict vs the set of true close conditions, pool-reuse continuation", ""),
